@@ -926,9 +926,8 @@ class SimpleShape(DefinedShape):
             return False
         if areaA > 0:
             return True
-        # If simple shape is not a square
-        # may happens error here
-        return True
+        # Both unbounded: the hole of self must lie in the hole of other
+        return not other.contains_jordan(jordanb, False)
 
 
 class ConnectedShape(DefinedShape):
